@@ -100,15 +100,16 @@ Example C13_example :
   format_range (fun s => N.of_nat (length s)) CliGen.cfg_default ex_let 0 100 = ROk 0 11 [35;108;101;116;32;120;32;61;32;49;10].
 Proof. vm_compute. reflexivity. Qed.
 
-(* (6) range formatting of a schema-conforming tree (SafeBound.swfc, evaluated by the check on every parsed tree)
-   answers with text or the refusal for every request a <= b on char boundaries: no Panic site of the range
-   arithmetic, the indentation lookup or the converters is reachable and the renderer's fuel suffices *)
+(* (6) range formatting answers with text or the refusal for every request a <= b on char boundaries, provided the
+   node it would format conforms to the schema clause (SafeBound.swfc; the check evaluates it on that node for every
+   case): no Panic site of the range arithmetic, the indentation lookup or the converters is reachable and the
+   renderer's fuel suffices.  The rest of the tree may even hold syntax errors. *)
 Theorem C13_range_total :
   forall swidth cfg (t : tree) a b,
     let s := into_text t in
     let len := byte_len s in
     (on_boundary s a \/ len <= a) -> (on_boundary s b \/ len <= b) -> a <= b ->
-    swfc t = true ->
+    (forall node, range_node t a b = Some node -> erroneous node = false -> swfc node = true) ->
     format_range swidth cfg t a b = RErr \/ exists r1 r2 out, format_range swidth cfg t a b = ROk r1 r2 out.
 Proof. exact format_range_total. Qed.
 Check C13_range_total :
@@ -116,6 +117,6 @@ Check C13_range_total :
     let s := into_text t in
     let len := byte_len s in
     (on_boundary s a \/ len <= a) -> (on_boundary s b \/ len <= b) -> a <= b ->
-    swfc t = true ->
+    (forall node, range_node t a b = Some node -> erroneous node = false -> swfc node = true) ->
     format_range swidth cfg t a b = RErr \/ exists r1 r2 out, format_range swidth cfg t a b = ROk r1 r2 out.
 Print Assumptions C13_range_total.
